@@ -69,6 +69,22 @@ def run(prog, chk):
             lit = txt.get('v') if txt.get('k') == 'str' else (SX.strip(SX.real_args(txt)[0]).get('v') if txt.get('k') == 'construct' and len(SX.real_args(txt)) == 1 else None)
             if t.get('kind') == 'enum' and isinstance(lit, str):
                 spell[lit] = t['name'].split('::')[-1]
+            elif t.get('k') == 'member' and txt.get('k') in ('member', 'construct'):
+                # table-driven scanner: makeToken(rule.type, rule.text) for a row of a constant table — every row of the table
+                # the loop runs over contributes (text, token)
+                for lp in SX.walk(st.body):
+                    if lp['k'] == 'forrange' and any(y is n for y in SX.walk(lp['body'])):
+                        rng = SX.strip(lp['range'])
+                        if SX.is_node(rng) and rng.get('k') == 'ref' and rng.get('global'):
+                            for gl in prog.facts.globals.values():
+                                if gl['name'].split('::')[-1] == rng['name'].split('::')[-1] and gl['file'].endswith('lexer.cpp') and SX.is_node(gl.get('init')):
+                                    for row in SX.walk(gl['init']):
+                                        if row['k'] in ('initlist', 'construct'):
+                                            items = [SX.strip(x) for x in (row.get('items') or row.get('args') or [])]
+                                            toks = [x for x in items if SX.is_node(x) and x.get('k') == 'ref' and x.get('kind') == 'enum' and 'TokenType' in x.get('name', '')]
+                                            strs = [x for x in items if SX.is_node(x) and x.get('k') == 'str']
+                                            if len(toks) == 1 and len(strs) == 1:
+                                                spell[strs[0]['v']] = toks[0]['name'].split('::')[-1]
     kw = {}
     for gl in prog.facts.globals.values():
         if gl['name'].endswith('keywords') and gl['file'].endswith('lexer.cpp'):
